@@ -195,7 +195,7 @@ HARNESSES += [poll_h(1), poll_h(2), poll_h(3), poll_h(4, thorough_only=True)]
 HARNESSES += [
     {"name": "reproc_drain", "props": ["C16", "C14"], "src": "h_drain.c", "contracts": ["public.h"],
      "includes": ["reproc.c", "drain.c"], "replace": ["reproc_poll", "reproc_read", "now"], "loop_contracts": True,
-     "defs": {"VERIF_LOOP_CONTRACTS": None}, "unwind": 24, "enforce": None,
+     "defs": {"VERIF_LOOP_CONTRACTS": None, "VERIF_SLIM": None}, "unwind": 12, "enforce": None,
      "what": "reproc_drain with its for(;;) loop closed by a loop contract over a ghost monitor of the sink protocol; "
              "reproc_poll and reproc_read replaced by their contracts; sinks may fail at any call; any number of chunks"},
 ]
@@ -449,3 +449,7 @@ PROPERTY_META = {
 }
 for _i in range(1, 21):
     PROPERTY_META.setdefault("C%02d" % _i, {"claimed": False, "reason": NOT_YET})
+
+for _h in HARNESSES:
+    if _h["name"] in ("now", "reproc_stop", "reproc_destroy", "reproc_start_parent", "reproc_poll_3", "process_fork_child"):
+        _h["cross_check"] = True
